@@ -144,7 +144,9 @@ def shapes(rng, n, long_ok=True):
         fp = ""
         if nf:
             fp = "." + (("0" * rng.randrange(nf) + digits(rng, 1)) if pf == "zero-frac" else digits(rng, nf, False))
-        es = "" if ex is None else rng.choice("eE") + (("+" if ex >= 0 and rng.random() < 0.3 else "") + str(ex))
+        # exponent spelling: optional '+', optional leading zeros
+        es = "" if ex is None else rng.choice("eE") + (("+" if ex >= 0 and rng.random() < 0.3 else "-" if ex < 0 else "") +
+                                                        "0" * rng.choice([0, 0, 0, 1, 2, 4, 6, 12]) + str(abs(ex)))
         lit = sign + lead + ip + fp + es
         isint = fp == "" and es == ""
         sig = len((ip + fp.replace(".", "")).lstrip("0"))
